@@ -192,6 +192,46 @@ def run(tier):
                     if st != want:
                         key = 'aspect:not-enforced' if want == 'err' else ('aspect:rejected-outside-mode' if not inside else 'aspect:valid-rejected-in-mode')
                         chk.fail(key + ':' + name, case, f'build+write {st} ({err}), expected {want}')
+        # (c2) objects created in one mode, enumerated attributes (re)assigned in the other
+        def make_objects():
+            df = DLISFile(set_identifier='SET-1')
+            lf = df.add_logical_file(fh_id='H')
+            lf.add_origin('ORIGIN', creation_time='2020/01/01 00:00:00', file_set_number=1)
+            ch = lf.add_channel('RATE', data=np.arange(3, dtype=np.float32))
+            eq = lf.add_equipment('EQ-1')
+            fr = lf.add_frame('MAIN-FRAME', channels=[ch])
+            pa = lf.add_parameter('PARAM-1', values=[1.0])
+            return {'channel-units': (ch.units, 'value', 'furlong', 'm'), 'equipment-type': (eq._type, 'value', 'Gizmo', 'Tool'),
+                    'equipment-location': (eq.location, 'value', 'Moon', 'Well'),
+                    'frame-index-type': (fr.index_type, 'value', 'WARP-FACTOR', 'BOREHOLE-DEPTH'),
+                    'attribute-units': (pa.values, 'units', 'furlong', 'm')}
+        for created_inside in (False, True):
+            if created_inside:
+                with high_compatibility_mode():
+                    objs = make_objects()
+            else:
+                objs = make_objects()
+            for name, (attr, part, bad, good) in objs.items():
+                for assign_inside in (False, True):
+                    for value, breached in ((bad, True), (good, False)):
+                        def assign():
+                            if assign_inside:
+                                with high_compatibility_mode():
+                                    setattr(attr, part, value)
+                            else:
+                                setattr(attr, part, value)
+                        st, err = call(assign)
+                        case = {'aspect': name, 'object_created_inside_mode': created_inside,
+                                'assigned_inside_mode': assign_inside, 'value': value}
+                        chk.case('cross-mode', nontrivial_key=(name, created_inside, assign_inside, breached))
+                        want = 'err' if (breached and assign_inside) else 'ok'
+                        if st != want:
+                            key = 'aspect:not-enforced:' if want == 'err' else 'mode-leaks:rejected-outside-mode:'
+                            chk.fail(key + name, case, f'assignment {st} ({err}), expected {want}: the mode in force when the '
+                                                       f'value is assigned decides, not the mode the object was created in')
+                        if global_config.high_compat_mode:
+                            chk.fail('context:flag-leaks', case, 'flag still on')
+                            global_config.high_compat_mode = False
         # (d) default file set numbers in the mode are 1..n
         def fsn():
             with high_compatibility_mode():
